@@ -254,8 +254,9 @@ def generate(workdir, tier, rng):
     rng.shuffle(sim)
     behs += sim[:(1500 if tier == "quick" else 30000)]
     if tier == "thorough":
-        # exhaustive mid scope: 3 writers, 1 key, 4 times, 4 statements (no refresh), 2 permutations
-        b, d, g, w = vf.gen_behaviours(workdir, "S3db", cfg_text(["w1", "w2", "w3"], ["k1"], 4, 4, 0, 2), name="gen_mid", timeout=3000)
+        # exhaustive mid scope: 3 writers, 1 key, 3 times, 3 statements, one refresh, 2 permutations (measured: 711 369
+        # behaviours, 778 858 states, 83 s; 4 times x 4 statements exceeds 1 GiB of TLC output)
+        b, d, g, w = vf.gen_behaviours(workdir, "S3db", cfg_text(["w1", "w2", "w3"], ["k1"], 3, 3, 1, 2), name="gen_mid", timeout=3000)
         notes.append("S3db_merge_mid exhaustive: %d behaviours, %d distinct states, %.0fs" % (len(b), d, w))
         states += d
         trans += g
